@@ -448,18 +448,24 @@ fn sequential_case(ctx: &Ctx, ops: &[Op], case_id: usize) {
             }
             Op::ResendIter => {
                 if let Some((mc, _, _, _, _)) = iter.as_mut() {
-                    let r: Result<(), varlink::Error> = match i % 3 {
-                        0 => mc.more().map(|_| ()),
-                        1 => mc.call().map(|_| ()),
-                        _ => mc.oneway(),
-                    };
-                    trace.push(format!("ResendIter{}->{:?}", i % 3, r.as_ref().map_err(kind_name)));
-                    match r {
-                        Err(e) if matches!(e.kind(), ErrorKind::MethodCalledAlready | ErrorKind::ConnectionBusy) => {}
-                        other => {
-                            fail = Some(("c07:call-object-sent-twice".into(), format!("op {}: second send on the iterating call object returned {:?}", i, other.map_err(|e| kind_name(&e)))));
-                            break;
+                    // all three kinds of send, one after the other
+                    for which in 0..3 {
+                        let r: Result<(), varlink::Error> = match which {
+                            0 => mc.more().map(|_| ()),
+                            1 => mc.call().map(|_| ()),
+                            _ => mc.oneway(),
+                        };
+                        trace.push(format!("ResendIter{}->{:?}", which, r.as_ref().map_err(kind_name)));
+                        match r {
+                            Err(e) if matches!(e.kind(), ErrorKind::MethodCalledAlready | ErrorKind::ConnectionBusy) => {}
+                            other => {
+                                fail = Some(("c07:call-object-sent-twice".into(), format!("op {}: second send ({}) on the iterating call object returned {:?}", i, ["more", "call", "oneway"][which], other.map_err(|e| kind_name(&e)))));
+                                break;
+                            }
                         }
+                    }
+                    if fail.is_some() {
+                        break;
                     }
                 }
             }
